@@ -17,13 +17,15 @@ type State struct {
 	ghost   map[string]string // ghost scalar state (e.g. lock held)
 	tainted map[string]bool
 	spare   []spareRegion // regions written by in-place append (spare capacity), exempt from the frame
+	hvgen   int           // > 0: every heap was havoced on this path (generation number); heaps first named later are fresh too
+	unk     bool          // an everything-havoc caused by a callee with unknown effects happened on this path
 }
 
 type spareRegion struct{ heap, ref, lo string }
 
 func (s *State) clone() *State {
 	n := &State{vars: make(map[*types.Var]Term, len(s.vars)), heaps: make(map[string]string, len(s.heaps)),
-		pc: append([]string(nil), s.pc...), alloc: s.alloc, ghost: map[string]string{}, tainted: map[string]bool{}, spare: append([]spareRegion(nil), s.spare...)}
+		pc: append([]string(nil), s.pc...), alloc: s.alloc, ghost: map[string]string{}, tainted: map[string]bool{}, spare: append([]spareRegion(nil), s.spare...), hvgen: s.hvgen, unk: s.unk}
 	for k, v := range s.vars {
 		n.vars[k] = v
 	}
@@ -61,7 +63,7 @@ type Obligation struct {
 	Total   float64 // solver wall time over every attempt
 	Tries   int
 	Model   string
-	Expect  string // "unsat" normally; "sat" for canaries / covers
+	Expect  string            // "unsat" normally; "sat" for canaries / covers
 	Vars    map[string]string // param name -> SMT symbol (for replay)
 	Precise bool
 }
@@ -167,6 +169,22 @@ func (u *Unit) merge(base *State, states []*State) *State {
 		}
 		out.heaps[h] = m
 	}
+	// everything-havoc generation
+	{
+		for _, s := range live {
+			if s.unk {
+				out.unk = true
+			}
+		}
+		out.hvgen = live[0].hvgen
+		for _, s := range live[1:] {
+			if s.hvgen != out.hvgen {
+				u.hvCounter++
+				out.hvgen = u.hvCounter
+				break
+			}
+		}
+	}
 	// alloc
 	{
 		same := true
@@ -239,6 +257,23 @@ func (u *Unit) varSort(v *types.Var, t Term) string {
 func (u *Unit) heapCur(st *State, h string) string {
 	if c, ok := st.heaps[h]; ok {
 		return c
+	}
+	if st.hvgen > 0 {
+		// the heap is named for the first time after an everything-havoc on this path: it is NOT the entry version
+		name := fmt.Sprintf("%s@hv%d", h, st.hvgen)
+		u.c.declareFun(name, "() "+u.c.heapNames[h])
+		st.heaps[h] = name
+		if !st.unk && u.entry != nil && st != u.entry {
+			// no callee with unknown effects ran on this path, so the generation comes from loop-head havocs (possibly
+			// merged): the loops' implicit frame invariant holds for this heap as well (a heap
+			// the body never names is not changed by it; one it names is checked at the back edge)
+			// (a fact about the symbol itself, over entry-state terms only: asserted once, globally, so that it is not
+			// lost when the heap is first named inside a branch or during a merge)
+			for i, g := range u.frameGoals(st, map[string]bool{h: true}) {
+				u.c.declareRaw(fmt.Sprintf("lazyframe_%s_%d", name, i), "(assert "+g.goal+")")
+			}
+		}
+		return name
 	}
 	// initial version: shared by every state of the unit
 	name := h + "@0"
